@@ -286,7 +286,7 @@ func typeSerializer(t dsl.Type, contextNamespace string, namedType *dsl.NamedTyp
 				if c.Type == nil {
 					options[i] = "None"
 				} else {
-					options[i] = fmt.Sprintf("(%s.%s, %s)", classSyntax, formatting.ToPascalCase(c.Tag), typeSerializer(c.Type, contextNamespace, namedType))
+					options[i] = fmt.Sprintf("(%s.%s, %s)", classSyntax, common.UnionCaseIdentifierName(c.Tag), typeSerializer(c.Type, contextNamespace, namedType))
 				}
 			}
 
